@@ -4,3 +4,4 @@ pub mod render;
 pub mod rng;
 pub mod val;
 pub mod e1;
+pub mod xform;
